@@ -118,6 +118,139 @@ func c03Idents(args []ast.Expr) []string {
 	return out
 }
 
+// c03GoB translates a Go boolean expression into the Lean `GoB` (Model/C03Wiring.lean).
+func (c *Ctx) c03GoB(e ast.Expr) string {
+	other := func() string { return "(.other " + leanStr(strings.Join(strings.Fields(c.Print(e)), " ")) + ")" }
+	switch v := e.(type) {
+	case *ast.ParenExpr:
+		return c.c03GoB(v.X)
+	case *ast.Ident:
+		switch v.Name {
+		case "true":
+			return "(.lit true)"
+		case "false":
+			return "(.lit false)"
+		}
+		return "(.var " + leanStr(v.Name) + ")"
+	case *ast.UnaryExpr:
+		if v.Op == token.NOT {
+			return "(.not " + c.c03GoB(v.X) + ")"
+		}
+	case *ast.BinaryExpr:
+		switch v.Op {
+		case token.LAND:
+			return "(.and " + c.c03GoB(v.X) + " " + c.c03GoB(v.Y) + ")"
+		case token.LOR:
+			return "(.or " + c.c03GoB(v.X) + " " + c.c03GoB(v.Y) + ")"
+		case token.EQL, token.NEQ:
+			x, ok := v.X.(*ast.Ident)
+			if !ok {
+				return other()
+			}
+			if y, ok := v.Y.(*ast.Ident); ok && y.Name == "nil" {
+				if v.Op == token.EQL {
+					return "(.isNil " + leanStr(x.Name) + ")"
+				}
+				return "(.notNil " + leanStr(x.Name) + ")"
+			}
+			if lit, ok := StringLit(v.Y); ok {
+				if v.Op == token.EQL {
+					return "(.strEq " + leanStr(x.Name) + " " + leanStr(lit) + ")"
+				}
+				return "(.strNe " + leanStr(x.Name) + " " + leanStr(lit) + ")"
+			}
+		}
+	case *ast.CallExpr:
+		fn := ""
+		switch f := v.Fun.(type) {
+		case *ast.Ident:
+			fn = f.Name
+		case *ast.SelectorExpr:
+			if p, n, ok := c03Sel(f); ok {
+				fn = p + "." + n
+			}
+		}
+		if fn == "" {
+			return other()
+		}
+		args := make([]string, len(v.Args))
+		for i, a := range v.Args {
+			id, ok := a.(*ast.Ident)
+			if !ok {
+				return other()
+			}
+			args[i] = leanStr(id.Name)
+		}
+		return "(.call " + leanStr(fn) + " [" + strings.Join(args, ", ") + "])"
+	}
+	return other()
+}
+
+// c03SbvSrc translates a function `func f(p string) bool { a, b, c := g(args…); return <bool expr> }` into the Lean `SbvSrc`.
+func (c *Ctx) c03SbvSrc(fd *ast.FuncDecl) string {
+	bad := func(why string) string {
+		txt := "<missing>"
+		if fd != nil && fd.Body != nil {
+			txt = strings.Join(strings.Fields(c.Print(fd.Body)), " ")
+		}
+		return fmt.Sprintf("{ param := \"?\", lhs := [], callee := %s, args := [], ret := (.other %s) }", leanStr("<"+why+">"), leanStr(txt))
+	}
+	if fd == nil || fd.Body == nil {
+		return bad("missing")
+	}
+	if fd.Type.Params == nil || len(fd.Type.Params.List) != 1 || len(fd.Type.Params.List[0].Names) != 1 {
+		return bad("params")
+	}
+	param := fd.Type.Params.List[0].Names[0].Name
+	if len(fd.Body.List) != 2 {
+		return bad("shape")
+	}
+	as, ok := fd.Body.List[0].(*ast.AssignStmt)
+	if !ok || as.Tok != token.DEFINE || len(as.Rhs) != 1 {
+		return bad("shape")
+	}
+	call, ok := as.Rhs[0].(*ast.CallExpr)
+	if !ok {
+		return bad("shape")
+	}
+	callee := ""
+	switch f := call.Fun.(type) {
+	case *ast.Ident:
+		callee = f.Name
+	case *ast.SelectorExpr:
+		if p, n, ok := c03Sel(f); ok {
+			callee = p + "." + n
+		}
+	}
+	if callee == "" {
+		return bad("callee")
+	}
+	var lhs, args []string
+	for _, l := range as.Lhs {
+		id, ok := l.(*ast.Ident)
+		if !ok {
+			return bad("lhs")
+		}
+		lhs = append(lhs, leanStr(id.Name))
+	}
+	for _, a := range call.Args {
+		switch v := a.(type) {
+		case *ast.Ident:
+			args = append(args, leanStr(v.Name))
+		case *ast.BasicLit:
+			args = append(args, leanStr(v.Value))
+		default:
+			return bad("args")
+		}
+	}
+	ret, ok := fd.Body.List[1].(*ast.ReturnStmt)
+	if !ok || len(ret.Results) != 1 {
+		return bad("shape")
+	}
+	return fmt.Sprintf("{ param := %s, lhs := [%s], callee := %s, args := [%s], ret := %s }", leanStr(param),
+		strings.Join(lhs, ", "), leanStr(callee), strings.Join(args, ", "), c.c03GoB(ret.Results[0]))
+}
+
 func init() {
 	RegisterGen("C03", func(c *Ctx) string {
 		var sb strings.Builder
@@ -562,6 +695,7 @@ func init() {
 		// ---- the trim step of spark's render callback and helpers.SortsByValue
 		{
 			guard, body := "<missing>", []string{}
+			var guardEx ast.Expr
 			if fd := c.Func("cmd/spark.go", "sparkFunction"); fd != nil {
 				ast.Inspect(fd, func(n ast.Node) bool {
 					call, ok := n.(*ast.CallExpr)
@@ -578,6 +712,7 @@ func init() {
 					for _, st := range fl.Body.List {
 						if is, ok := st.(*ast.IfStmt); ok {
 							guard = strings.Join(strings.Fields(c.Print(is.Cond)), " ")
+							guardEx = is.Cond
 							for _, l := range strings.Split(c.Print(is.Body), "\n") {
 								if t := strings.Join(strings.Fields(l), " "); t != "" {
 									body = append(body, leanStr(t))
@@ -590,6 +725,8 @@ func init() {
 				})
 			}
 			sbv := "<missing>"
+			guardE := "(.other \"<missing>\")"
+			sbvFn := c.c03SbvSrc(c.Func("cmd/helpers/sorting.go", "SortsByValue"))
 			if fd := c.Func("cmd/helpers/sorting.go", "SortsByValue"); fd != nil && fd.Body != nil {
 				var ls []string
 				for _, l := range strings.Split(c.Print(fd.Body), "\n") {
@@ -599,6 +736,10 @@ func init() {
 				}
 				sbv = strings.Join(ls, " ")
 			}
+			if guardEx != nil {
+				guardE = c.c03GoB(guardEx)
+			}
+			fmt.Fprintf(&sb, "/-- the guard of spark's trim step as an expression, and helpers.SortsByValue as a function -/\ndef sparkTrimGuardE : GoB := %s\ndef sortsByValueFn : SbvSrc := %s\n\n", guardE, sbvFn)
 			fmt.Fprintf(&sb, "/-- cmd/spark.go, render callback: the guard of the trim step and its body, line by line -/\ndef sparkTrimGuard : String := %s\ndef sparkTrimBody : List String := [\n  %s]\n/-- the body of helpers.SortsByValue -/\ndef sortsByValueSrc : String := %s\n\n", leanStr(guard), strings.Join(body, ",\n  "), leanStr(sbv))
 		}
 
